@@ -161,6 +161,13 @@ def exec_multi_tan(case, k, classes, desc):
             restore = lambda: setattr(Image, "get_parity_sign", orig_gps)
             classes.append("fails-in-image-preparation")
 
+        if case.get("fail_site") == "load":
+            # an input file disappears between the planning pass and the tiling pass: loading that image fails in the process that
+            # hands the images out
+            counter["fail_at"] = None
+            os.unlink(paths[case["fail_idx"] % len(paths)])
+            classes.append("fails-loading-an-input-image")
+
         def make_target(w):
             def go():
                 with warnings.catch_warnings():
@@ -419,7 +426,7 @@ def strat(draw, tier):
         if case["k"] > 1:
             case["sched"] = draw(scen.schedules(max_size=100))
         if stage == "multi_tan" and draw(st.integers(0, 2)) == 0:
-            case["fail_site"] = "parity"
+            case["fail_site"] = draw(st.sampled_from(["parity", "load"]))
     elif stage == "transform":
         k = draw(st.sampled_from([1, 2, 2, 3, 4, 8]))
         case = {"stage": stage, "depth": draw(st.integers(0, 2 if tier == "quick" else 3)), "k": k}
